@@ -290,7 +290,7 @@ def spread_scenario(sid, pattern, master_range, n, rng, order="", repl=REPL):
     return {"id": sid, "role": "", "steps": steps}
 
 
-def blip_scenario(sid, pre, victim, rng, down_reads=8, wait_ms=12000):
+def blip_scenario(sid, pre, victim, rng, down_reads=8, wait_ms=6000):
     """A replica goes away for a moment (its connections die, new ones are refused) and comes back.  Once the pool's
     health monitor has had its turn (it runs every 5 s, in real time), the replica is healthy again and must get its
     share of the reads."""
@@ -307,7 +307,10 @@ def blip_scenario(sid, pre, victim, rng, down_reads=8, wait_ms=12000):
         steps.append(step([st(op="send", c="c1", reqs=[get() for _ in range(down_reads)])]))
         steps += drain(1, 30)
         steps.append(step([st(op="sleep", count=30)]))
-    steps.append({"stim": [st(op="nup", n=v) for v in victims] + [st(op="sleep", count=wait_ms)], "settle": False, "noIter": True})
+    # real time: at least wait_ms, then (bounded) until the pool's health monitor has lifted the ban; a monitor that never
+    # does is given 40 s
+    steps.append({"stim": [st(op="nup", n=v) for v in victims] + [st(op="sleep", count=wait_ms)] + [st(op="waitunban", n=v, count=40000) for v in victims],
+                  "settle": False, "noIter": True})
     for i in range(0, 240, 24):
         steps.append(step([st(op="send", c="c1", reqs=[get() for _ in range(24)])]))
         steps += drain(2, 30)
